@@ -287,6 +287,67 @@ fn do_read(w: &World, goff: usize, s: &Side, n: usize) -> Result<Vec<u8>, String
     }
 }
 
+// ---- "with the requested ordering": a recording atomic plugged into the crate's own extension point
+thread_local! {
+    static SEEN_ORDER: std::cell::Cell<Option<Ordering>> = const { std::cell::Cell::new(None) };
+}
+
+#[repr(transparent)]
+pub struct RecAtomic32(std::sync::atomic::AtomicU32);
+
+// SAFETY: a transparent wrapper around AtomicU32.
+unsafe impl vm_memory::AtomicInteger for RecAtomic32 {
+    type V = u32;
+    fn new(v: u32) -> Self {
+        RecAtomic32(std::sync::atomic::AtomicU32::new(v))
+    }
+    fn load(&self, order: Ordering) -> u32 {
+        SEEN_ORDER.with(|s| s.set(Some(order)));
+        self.0.load(order)
+    }
+    fn store(&self, val: u32, order: Ordering) {
+        SEEN_ORDER.with(|s| s.set(Some(order)));
+        self.0.store(val, order)
+    }
+}
+
+#[derive(Clone, Copy)]
+#[repr(transparent)]
+pub struct Rec32(u32);
+// SAFETY: plain data.
+unsafe impl vm_memory::ByteValued for Rec32 {}
+impl From<u32> for Rec32 {
+    fn from(v: u32) -> Self {
+        Rec32(v)
+    }
+}
+impl From<Rec32> for u32 {
+    fn from(v: Rec32) -> u32 {
+        v.0
+    }
+}
+impl vm_memory::AtomicAccess for Rec32 {
+    type A = RecAtomic32;
+}
+
+/// store / load through `b` with every ordering valid for the operation; the ordering that reaches
+/// the atomic must be the requested one
+fn ordering_probe<A: Copy, B: Bytes<A>>(b: &B, at: A, layer: &str)
+where
+    B::E: Debug,
+{
+    for (store, order) in [(true, Ordering::Relaxed), (true, Ordering::Release), (true, Ordering::SeqCst), (false, Ordering::Relaxed), (false, Ordering::Acquire), (false, Ordering::SeqCst)] {
+        SEEN_ORDER.with(|s| s.set(None));
+        let r = catch(|| if store { b.store(Rec32(0x0102_0304), at, order).map_err(es) } else { b.load::<Rec32>(at, order).map(|_| ()).map_err(es) });
+        let seen = SEEN_ORDER.with(|s| s.get());
+        match r {
+            OpOutcome::Ok(Ok(())) if seen == Some(order) => cx().count("probe.atomic_ordering_passed_through"),
+            OpOutcome::Ok(Ok(())) => cx().violate("C06", "C06/ordering", format!("{} ordering at {} level", if store { "store" } else { "load" }, layer), format!("{}({:?}) at {} level performed the atomic access with {:?}", if store { "store" } else { "load" }, order, layer, seen)),
+            other => cx().violate("C06", "C06/error", format!("atomic {} failed at {} level", if store { "store" } else { "load" }, layer), format!("aligned atomic access failed: {:?}", match other { OpOutcome::Ok(Err(e)) => e, OpOutcome::Panic(m) => m, _ => "simulator abort".into() })),
+        }
+    }
+}
+
 pub struct Tear;
 pub static TEAR: Tear = Tear;
 
@@ -572,6 +633,16 @@ impl Scenario for Tear {
         };
         let cell = Some((format!("{:?} w:{} len{} {}", layer, W_ENTRIES[ws.entry], n, if guest_aligned { "aligned" } else { "unaligned" }), cx().hash));
         cx().count(R_COUNTERS[rs.entry]);
+        // the atomic forms use the requested ordering (checked through a recording AtomicInteger)
+        if cx().a(8) == 0 && cx().violations.is_empty() {
+            cx().mode = Mode::Actor;
+            let o4 = (4 - world.win as usize % 4) % 4;
+            match world.layer {
+                Layer::Slice => ordering_probe(&world.vs(), o4, "slice"),
+                Layer::Region => ordering_probe(world.region(), MemoryRegionAddress(o4 as u64), "region"),
+                Layer::Gm => ordering_probe(world.gm.as_ref().unwrap(), GuestAddress(GBASE + o4 as u64), "guest-memory"),
+            }
+        }
         // tear down
         cx().mode = Mode::Setup;
         cx().clear_ranges();
